@@ -97,6 +97,32 @@ for _u in ('GD', 'TGD', 'GN', 'GNN', 'GDY'):
                  ('unlimited-in-array', 'struct B { u8 p; %s x<...>; };' % _u),
                  ('unlimited-in-optional', 'struct B { %s* x; };' % _u),
                  ('unlimited-in-union-arm', 'union B { 1: u8 a; 2: %s x; };' % _u)]
+# the offending element in the first / a middle position among its siblings (a check that only looks at the last one ...)
+for _t, _cls in (('D', 'dynamic-in-union-arm'), ('TD', 'dynamic-in-union-arm'), ('DN', 'dynamic-in-union-arm'),
+                 ('G', 'unlimited-in-union-arm'), ('GD', 'unlimited-in-union-arm')):
+    BREAKERS += [(_cls, 'union B { 1: %s x; 2: u32 b; };' % _t),
+                 (_cls, 'union B { 1: u8 a; 2: %s x; 3: u16 c; };' % _t),
+                 (_cls, 'union B { 1: %s x; 2: %s y; 3: u16 c; };' % (_t, _t))]
+BREAKERS += [('duplicate-arm', 'union B { 1: u8 a; 2: u16 b; 3: u32 a; };'),
+             ('duplicate-discriminator', 'union B { 1: u8 a; 2: u16 b; 1: u32 c; };'),
+             ('duplicate-discriminator', 'union B { 3: u8 a; 1: u16 b; 1: u32 c; 4: u8 d; };'),
+             ('duplicate-field', 'struct B { u8 a; u16 b; u32 c; u8 a; };'),
+             ('duplicate-field', 'struct B { u8 z; u8 a; u16 a; u32 c; };'),
+             ('duplicate-enumerator', 'enum B { X = 1, Y = 2, Z = 3, X = 4 };'),
+             ('dynamic-in-fixed-array', 'struct B { D x[2]; u8 a; u8 b; };'),
+             ('dynamic-in-fixed-array', 'struct B { u8 a; D x[2]; u8 b; };'),
+             ('dynamic-in-optional', 'struct B { D* x; u8 a; };'),
+             ('dynamic-in-optional', 'struct B { u8 a; D* x; u8 b; };'),
+             ('unlimited-in-array', 'struct B { G x<>; u8 a; };'),
+             ('non-positive-size', 'struct B { u8 x[0]; u8 a; };'),
+             ('non-positive-size', 'struct B { u8 a; u8 x[0]; u8 b; };'),
+             ('sizer-missing', 'struct B { u8 a; u8 x<@nope>; u8 b; };'),
+             ('sizer-not-integer', 'struct B { u8 a; float n; u8 x<@n>; u8 b; };'),
+             ('enumerator-out-of-32-bits', 'enum B { X = 1, Y = -1, Z = 2 };'),
+             ('enumerator-out-of-32-bits', 'enum B { X = 1, Y = 4294967296, Z = 2 };'),
+             ('enumerator-out-of-32-bits', 'enum B { X = 1, Y = X - 2 };'),
+             ('discriminator-out-of-32-bits', 'union B { 1: u8 a; -1: u8 b; 2: u8 c; };'),
+             ('discriminator-out-of-32-bits', 'union B { 1: u8 a; 4294967296: u8 b; 2: u8 c; };')]
 for _d in ('DN', 'DL', 'DNN', 'TDNN'):
     BREAKERS += [('dynamic-in-fixed-array', 'struct B { %s x[2]; };' % _d),
                  ('dynamic-in-limited-array', 'struct B { u8 a; %s x<2>; };' % _d),
